@@ -12,6 +12,7 @@
  *       "xattr"         = super, xattr reader, tree, xattrs of every node
  *       "iter"          = recursive directory iterator (dir_iterator.c + dir_rec.c)
  *       "meta <ops>"    = raw meta reader op sequence (see run_meta)
+ *       "path <p>"      = sqfs_dir_reader_resolve_path(p)
  */
 #include "config.h"
 #include "common.h"
@@ -486,6 +487,36 @@ static int run_meta(int argc, char **argv)
 	return 0;
 }
 
+/* sqfs_dir_reader_resolve_path with the path in an exactly sized heap buffer */
+static int run_path(const char *arg)
+{
+	sqfs_inode_generic_t *inode = NULL;
+	sqfs_u64 ref = 0;
+	size_t len = strlen(arg);
+	char *path = malloc(len + 1);
+	int ret;
+
+	if (path == NULL)
+		return 1;
+	memcpy(path, arg, len + 1);
+	dirrd = sqfs_dir_reader_create(&super, cmp, file, 0);
+	if (dirrd == NULL)
+		return 1;
+	ret = sqfs_dir_reader_resolve_path(dirrd, path, NULL, &ref);
+	if (ret) {
+		printf("path ERR %d\n", ret);
+	} else {
+		ret = sqfs_dir_reader_get_inode(dirrd, ref, &inode);
+		if (ret)
+			printf("path OK %llu inode ERR %d\n", (unsigned long long)ref, ret);
+		else
+			printf("path OK %llu type %u\n", (unsigned long long)ref, inode->base.type);
+		sqfs_free(inode);
+	}
+	free(path);
+	return 0;
+}
+
 int main(int argc, char **argv)
 {
 	const char *mode = argc > 2 ? argv[2] : "all";
@@ -503,6 +534,8 @@ int main(int argc, char **argv)
 			ret = run_iter();
 		else if (!strcmp(mode, "meta"))
 			ret = run_meta(argc - 3, argv + 3);
+		else if (!strcmp(mode, "path") && argc > 3)
+			ret = run_path(argv[3]);
 	}
 	printf("end\n");
 	fflush(stdout);
